@@ -131,6 +131,13 @@ def _body(t, s0, s1, log, clsx, k, p1, pv1, p2, pv2, rk, kind, route, bad, after
         check('C02.watchers', after['wt'] == snap['wt'] and after['swt'] == snap['swt'], info)
         check('C02.dispatch_state', after['state'] == snap['state'], info)
         check('C02.no_event', len(log) == nlog, info)
+        if route == 3 and ctx == 0:
+            # the Event key the rejected update never reached still is an Event: it pulses and falls back to False
+            n = len(log)
+            t.e = True
+            mid = t.e
+            t.e = True
+            check('C02.dispatch_state', mid is False and t.e is False and len(log) == n + 2, dict(info, event_after_rejected_update=True, pulses=len(log) - n))
         # later propagation follows the old link only
         s0.v = after0
         if linked is s0:
